@@ -113,6 +113,8 @@ def np_copy(a):
 
 def _ufunc1(op):
     def f(x):
+        if hasattr(x, "__pyvc_array__"):
+            x = x.__pyvc_array__()
         if isinstance(x, MArr):
             return M.ma_ufunc1(op, x)
         if isinstance(x, Arr):
@@ -210,6 +212,15 @@ def _stats():
     if not hasattr(c, "stats"):
         c.stats = []
     return c.stats
+
+
+_SPEC_COUNTER = [0]
+
+
+def spec_const(base, sort):
+    """globally fresh constant for specification-side Skolem objects"""
+    _SPEC_COUNTER[0] += 1
+    return z3.Const("%s!spec%d" % (base, _SPEC_COUNTER[0]), sort)
 
 
 def _present_count(a):
@@ -438,7 +449,7 @@ def _row_reduce(name, w, axis):
     rows, cols = w.rows, w.cols
     e, mk = w._elem, w._mask
     if mk is None:
-        raise Unsupported("row reduction of an unmasked window")
+        mk = lambda r, cc: False  # noqa: E731  (MaskedArray(ndarray): nomask)
     if alg.as_concrete(cols) is not None and alg.as_concrete(cols) <= 0:
         raise ValueError("zero-size array to reduction operation which has no identity")
     memo = {}
@@ -448,6 +459,24 @@ def _row_reduce(name, w, axis):
         k = M._ikey(r)
         if k in memo:
             return memo[k]
+        cr, cc_ = alg.as_concrete(r), alg.as_concrete(cols)
+        if cr is not None and cc_ is not None:
+            # concrete reading
+            ent = []
+            ok = True
+            for c_ in range(cc_):
+                m_ = mk(cr, c_)
+                m_ = alg.as_concrete(m_) if alg.is_sym(m_) else m_
+                p_ = e(cr, c_)
+                v_ = alg.as_concrete(p_[1]) if alg.is_sym(p_[1]) else p_[1]
+                if m_ is None or v_ is None:
+                    ok = False
+                    break
+                if not m_:
+                    ent.append(v_)
+            if ok:
+                memo[k] = ((min(ent) if name == "min" else max(ent)) if ent else 0, not ent)
+                return memo[k]
         v = ctx.fresh(name + "row", z3.RealSort())
         allm = ctx.fresh(name + "allm", z3.BoolSort())
         wit = ctx.fresh(name + "wit", z3.IntSort())
@@ -455,8 +484,9 @@ def _row_reduce(name, w, axis):
         # attained at a present entry unless the whole row is masked
         ctx.aux.append(alg.lift(alg.implies(alg.not_(allm), alg.and_(present(wit), alg.eq(v, e(r, wit)[1])))))
         bound = (lambda cc: alg.le(v, e(r, cc)[1])) if name == "min" else (lambda cc: alg.ge(v, e(r, cc)[1]))
-        ctx.add_fact(name + "-bound", lambda cc: alg.implies(present(cc), alg.and_(alg.not_(allm), bound(cc))))
-        ctx.reductions.append((name, r, v, allm, wit, rows, cols))
+        body = lambda cc: alg.implies(present(cc), alg.and_(alg.not_(allm), bound(cc)))  # noqa: E731
+        ctx.add_fact(name + "-bound", body)
+        ctx.reductions.append({"name": name, "row": r, "value": v, "allmasked": allm, "wit": wit, "cols": cols, "bound": body})
         memo[k] = (v, allm)
         return memo[k]
 
